@@ -22,14 +22,21 @@ type Up struct {
 type Op struct {
 	// Kind: update delete sync multi - atomic group fill - break await wait
 	// (a break with Via "silence" is the target going quiet until the collector's receive timeout ends the stream)
-	Kind    string    `json:"kind"`
-	Origin  string    `json:"origin,omitempty"` // prefix origin ("" = none: the collector files it under "openconfig")
-	Prefix  []gn.Elem `json:"prefix,omitempty"`
-	Path    []gn.Elem `json:"path,omitempty"`
-	Element bool      `json:"element,omitempty"` // deprecated path encoding
-	Val     gn.Val    `json:"val,omitempty"`
-	Cut     int       `json:"cut,omitempty"` // multi: the delete path is the first Cut elements of prefix+path
-	Pad     int       `json:"pad,omitempty"` // the string value is lengthened by Pad bytes when sent
+	// quiet: the device has nothing to say for N milliseconds of REAL time (its streams stay open and idle)
+	Kind   string `json:"kind"`
+	Origin string `json:"origin,omitempty"` // prefix origin ("" = none: the collector files it under "openconfig"; "openconfig" may also be spelled out)
+	// PTarget is what the device puts into prefix.target of this notification: nothing, the name the collector
+	// subscribed with (echo), its own idea of its name (a host name, an address), the name of ANOTHER configured
+	// target. The collector documents that whatever a target streams is filed under the CONFIGURED name.
+	// NoPrefix: the notification carries no prefix message at all (only when there is nothing to put into one).
+	PTarget  string    `json:"ptarget,omitempty"`
+	NoPrefix bool      `json:"no_prefix,omitempty"`
+	Prefix   []gn.Elem `json:"prefix,omitempty"`
+	Path     []gn.Elem `json:"path,omitempty"`
+	Element  bool      `json:"element,omitempty"` // deprecated path encoding
+	Val      gn.Val    `json:"val,omitempty"`
+	Cut      int       `json:"cut,omitempty"` // multi: the delete path is the first Cut elements of prefix+path
+	Pad      int       `json:"pad,omitempty"` // the string value is lengthened by Pad bytes when sent
 	// atomic: ONE notification with the atomic flag, Prefix and these updates (the device's container);
 	// group: one plain notification with several updates below Prefix.
 	Ups []Up `json:"ups,omitempty"`
@@ -49,8 +56,10 @@ type Op struct {
 	LoseMod int    `json:"lose_mod,omitempty"`
 	LoseRem int    `json:"lose_rem,omitempty"`
 	// await: the script goes on when observer Obs reached Event (start dialed first sync pause tick resub), or after a bounded wait
+	// (MaxMs, 0: 3 s)
 	Obs   int    `json:"obs,omitempty"`
 	Event string `json:"event,omitempty"`
+	MaxMs int    `json:"max_ms,omitempty"`
 }
 
 // Target is one configured target and its stream.
@@ -97,6 +106,10 @@ type Observer struct {
 	// again with the same Query value.
 	Reconnect bool  `json:"reconnect,omitempty"`
 	Cuts      []int `json:"cuts,omitempty"`
+	// TimeoutMs: client.Query.Timeout of its subscriptions (0: 15 s). Library: the connection is dialled by the client
+	// library itself (client type "gnmi", client/gnmi.New - what every application gets) instead of the harness's dialers.
+	TimeoutMs int  `json:"timeout_ms,omitempty"`
+	Library   bool `json:"library,omitempty"`
 }
 
 // Reuse is a sequence of subscriptions made after quiescence with ONE client.Query value (Type changed in
@@ -115,6 +128,9 @@ type Scenario struct {
 	Subtree   int        `json:"subtree"` // CLI: which leaf's top-level subtree is queried besides the whole target
 	Observers []Observer `json:"observers,omitempty"`
 	Reuse     []Reuse    `json:"reuse,omitempty"`
+	// NoMeta: the collector runs without -metadata_update_period (its default: no periodic metadata), so a target
+	// that says nothing means a subscriber's stream that carries nothing. Otherwise the period is 200 ms.
+	NoMeta bool `json:"no_meta,omitempty"`
 }
 
 // Element names and key values: mostly plain, some containing '/' (interface names, prefixes; a leading and a
@@ -191,16 +207,70 @@ func opKey(o Op) []string {
 type tgen struct {
 	t      *rapid.T
 	ops    []Op
-	m      *model // the device's state after ops
-	groups []Op   // group notifications sent so far (candidates for a re-send)
-	serial int    // makes values that must differ from what is stored
+	m      *model   // the device's state after ops
+	groups []Op     // group notifications sent so far (candidates for a re-send)
+	serial int      // makes values that must differ from what is stored
+	name   string   // the name the target is configured with
+	peers  []string // the names of the other configured targets
 }
 
-func newTgen(t *rapid.T) *tgen { return &tgen{t: t, m: newModel()} }
+func newTgen(t *rapid.T, name string, peers []string) *tgen {
+	return &tgen{t: t, m: newModel(), name: name, peers: peers}
+}
 
 func (g *tgen) emit(o Op) {
+	g.dress(&o)
 	g.ops = append(g.ops, o)
 	g.m.apply(o, nil)
+}
+
+// What devices are seen to put into prefix.target besides nothing and the echoed name.
+var hostNames = []string{"edge-router-1.example.net", "10.0.0.1:6030", "DEV0", "*", "dev", "r 1/a"}
+
+// isMessage: the op is a notification the target sends.
+func isMessage(kind string) bool {
+	switch kind {
+	case "update", "delete", "multi", "atomic", "group", "fill":
+		return true
+	}
+	return false
+}
+
+// bare: the notification of this op has nothing to put into a prefix besides origin and target.
+func bare(o Op) bool {
+	switch o.Kind {
+	case "update", "group":
+		return len(o.Prefix) == 0
+	case "delete", "multi", "fill":
+		return true
+	}
+	return false
+}
+
+// dress draws what the device writes into the prefix of this notification besides the path elements - drawn anew
+// for every notification, also one that is sent again: the default origin absent or spelled out, and prefix.target
+// absent / echoed / the device's own name / the name of another configured target; sometimes no prefix at all.
+// None of it changes where the collector has to file the notification.
+func (g *tgen) dress(o *Op) {
+	if !isMessage(o.Kind) {
+		return
+	}
+	t := g.t
+	if o.Origin == "" || o.Origin == "openconfig" {
+		o.Origin = rapid.SampledFrom([]string{"", "", "openconfig"}).Draw(t, "porigin")
+	}
+	o.PTarget, o.NoPrefix = "", false
+	switch k := rapid.IntRange(0, 8).Draw(t, "ptarget"); {
+	case k <= 1:
+	case k == 2:
+		o.PTarget = g.name
+	case k >= 7:
+		o.NoPrefix = o.Origin == "" && bare(*o)
+	case k <= 4 || len(g.peers) == 0:
+		o.PTarget = rapid.SampledFrom(hostNames).Draw(t, "phost")
+	default:
+		o.PTarget = rapid.SampledFrom(g.peers).Draw(t, "ppeer")
+	}
 }
 
 // conflict: storing k would put a leaf above or below a stored unit (the leaf set stays
@@ -426,9 +496,29 @@ func (g *tgen) step() {
 	}
 }
 
-func genTarget(t *rapid.T, i, servers, requests int) Target {
-	tg := Target{Name: fmt.Sprintf("dev%d", i), Server: rapid.IntRange(0, servers-1).Draw(t, "server"), Request: rapid.IntRange(0, requests-1).Draw(t, "request")}
-	g := newTgen(t)
+// targetNames: the configured names of n targets; peersOf: all but the i-th.
+func targetNames(n int) []string {
+	var out []string
+	for i := 0; i < n; i++ {
+		out = append(out, fmt.Sprintf("dev%d", i))
+	}
+	return out
+}
+
+func peersOf(names []string, i int) []string {
+	var out []string
+	for j, n := range names {
+		if j != i {
+			out = append(out, n)
+		}
+	}
+	return out
+}
+
+// genTarget generates the i-th of the configured targets (of: how many there are).
+func genTarget(t *rapid.T, i, of, servers, requests int) Target {
+	tg := Target{Name: targetNames(of)[i], Server: rapid.IntRange(0, servers-1).Draw(t, "server"), Request: rapid.IntRange(0, requests-1).Draw(t, "request")}
+	g := newTgen(t, tg.Name, peersOf(targetNames(of), i))
 	n := rapid.IntRange(2, 10).Draw(t, "nops")
 	syncAt := rapid.IntRange(0, n).Draw(t, "syncat")
 	for j := 0; j < n; j++ {
@@ -456,7 +546,7 @@ func genScenario(t *rapid.T) *Scenario {
 	sc := &Scenario{Servers: rapid.IntRange(1, 2).Draw(t, "servers"), Requests: rapid.IntRange(1, 2).Draw(t, "requests"), Subtree: rapid.IntRange(0, 5).Draw(t, "subtree")}
 	n := rapid.IntRange(1, 3).Draw(t, "ntargets")
 	for i := 0; i < n; i++ {
-		sc.Targets = append(sc.Targets, genTarget(t, i, sc.Servers, sc.Requests))
+		sc.Targets = append(sc.Targets, genTarget(t, i, n, sc.Servers, sc.Requests))
 	}
 	sc.Reuse = genReuse(t, sc.Targets)
 	return sc
